@@ -387,151 +387,167 @@ def stub_family(ck, np, Reweighter, StateManager, cov):
 # --------------------------------------------------------------------------------------------------
 # real histories, no stubs
 def real_history_family(ck, np, Reweighter, StateManager, ess_fn, cov):
+    n_runs = 48 if ck.tier == "quick" else 600
+
+    def report(key, what, ctx):
+        ck.violation(key, what, ctx)
+
+    for r in range(n_runs):
+        real_history_run(np, Reweighter, StateManager, ess_fn, ck.seed, r, ck.tier, cov, report, ck)
+
+
+def real_history_run(np, Reweighter, StateManager, ess_fn, seed, r, tier, cov, report, ck=None):
+    """One synthetic history driven call after call through the real Reweighter.run (regenerable from
+    (seed, r, tier): this is what --replay re-executes for real-history cases)."""
     from scipy.special import ndtr  # u = Phi(x): the unit-cube image of a standard normal prior
 
-    quick = ck.tier == "quick"
-    n_runs = 48 if quick else 600
+    quick = tier == "quick"
     max_calls = 22 if quick else 40
     styles = ("tempered", "skewed", "wrong-temperature")
-    for r in range(n_runs):
-        rng = np.random.RandomState((ck.seed * 1000003 + 7919 * r + 5) % (2 ** 31))
-        d = int(rng.choice([1, 2, 3]))
-        npart = int(rng.choice([8, 16, 32] if quick else [8, 16, 32, 64]))
-        ratio = float(rng.choice([0.5, 1.0, 2.0, 3.25]))
-        mode = "ess" if r % 2 == 0 else "vv"
-        vtarget = float(rng.choice([0.05, 0.1, 0.25, 0.5, 1.0])) if mode == "vv" else None
-        btol = float(rng.choice([1e-4, 1e-4, 1e-2, 2.0 ** -6]))
-        style = styles[(r // 2) % 3]
-        unequal = bool(rng.randint(2))
-        scale = float(rng.choice([4.0, 25.0, 400.0]))
-        mu = rng.uniform(-1, 1, d)
-        params = dict(run=r, d=d, n_particles=npart, ess_ratio=ratio, mode=mode, volume_variation=vtarget,
-                      BETA_TOLERANCE=btol, style=style, unequal=unequal, scale=scale, seed=ck.seed)
-        target = ratio * npart
-        kmax = max(0, math.ceil(math.log2(1.0 / btol)))
-        sm = StateManager(n_dim=d)
-        sm.set_current("iter", 0)
-        sm.set_current("calls", 0)
-        sm.set_current("beta", 0.0)
-        sm.set_current("logz", 0.0)
-        rw = Reweighter(sm, None, n_particles=npart, ess_ratio=ratio, volume_variation=vtarget,
-                        ESS_TOLERANCE=ESS_TOL, BETA_TOLERANCE=btol)
-        seen = {"upper": None, "evals": []}
-        orig_ul, orig_metric = rw._find_beta_upper_limit, rw._compute_metric_and_weights
+    rng = np.random.RandomState((seed * 1000003 + 7919 * r + 5) % (2 ** 31))
+    d = int(rng.choice([1, 2, 3]))
+    npart = int(rng.choice([8, 16, 32] if quick else [8, 16, 32, 64]))
+    ratio = float(rng.choice([0.5, 1.0, 2.0, 3.25]))
+    mode = "ess" if r % 2 == 0 else "vv"
+    vtarget = float(rng.choice([0.05, 0.1, 0.25, 0.5, 1.0])) if mode == "vv" else None
+    btol = float(rng.choice([1e-4, 1e-4, 1e-2, 2.0 ** -6]))
+    style = styles[(r // 2) % 3]
+    unequal = bool(rng.randint(2))
+    scale = float(rng.choice([4.0, 25.0, 400.0]))
+    mu = rng.uniform(-1, 1, d)
+    params = dict(run=r, d=d, n_particles=npart, ess_ratio=ratio, mode=mode, volume_variation=vtarget,
+                  BETA_TOLERANCE=btol, style=style, unequal=unequal, scale=scale, seed=seed, tier=tier)
+    target = ratio * npart
+    kmax = max(0, math.ceil(math.log2(1.0 / btol)))
+    sm = StateManager(n_dim=d)
+    sm.set_current("iter", 0)
+    sm.set_current("calls", 0)
+    sm.set_current("beta", 0.0)
+    sm.set_current("logz", 0.0)
+    rw = Reweighter(sm, None, n_particles=npart, ess_ratio=ratio, volume_variation=vtarget,
+                    ESS_TOLERANCE=ESS_TOL, BETA_TOLERANCE=btol)
+    seen = {"upper": None, "evals": []}
+    orig_ul, orig_metric, orig_bis = rw._find_beta_upper_limit, rw._compute_metric_and_weights, rw._find_beta_bisection
 
-        def ul(b, e, _o=orig_ul, _s=seen):  # observers, not stubs: they call the real methods
-            _s["upper"] = _o(b, e)
-            return _s["upper"]
+    def bis(*a, _o=orig_bis, **k):
+        cov["real_metric_bisections_" + mode] += 1
+        return _o(*a, **k)
 
-        def metric(b, _o=orig_metric, _s=seen):
-            _s["evals"].append(b)
-            return _o(b)
+    rw._find_beta_bisection = bis
 
-        rw._find_beta_upper_limit = ul
-        rw._compute_metric_and_weights = metric
-        at_one = 0
-        for call in range(max_calls):
-            empty = sm.get_history_length() == 0
-            beta_prev = sm.get_current("beta")
-            iter_prev = sm.get_current("iter")
-            seen["upper"], seen["evals"] = None, []
-            ctx = dict(params, call=call, beta_prev=beta_prev)
+    def ul(b, e, _o=orig_ul, _s=seen):  # observers, not stubs: they call the real methods
+        _s["upper"] = _o(b, e)
+        return _s["upper"]
 
-            def bad(key, what, **more):
-                ck.violation(f"real:{mode}:{key}", what, dict(ctx, family="real-history", **more))
+    def metric(b, _o=orig_metric, _s=seen):
+        _s["evals"].append(b)
+        return _o(b)
 
-            try:
-                w = rw.run()
-            except Exception as ex:
-                bad("raised", f"Reweighter.run raised {ex!r}")
+    rw._find_beta_upper_limit = ul
+    rw._compute_metric_and_weights = metric
+    at_one = 0
+    for call in range(max_calls):
+        empty = sm.get_history_length() == 0
+        beta_prev = sm.get_current("beta")
+        iter_prev = sm.get_current("iter")
+        seen["upper"], seen["evals"] = None, []
+        ctx = dict(params, call=call, beta_prev=beta_prev)
+
+        def bad(key, what, **more):
+            report(f"real:{mode}:{key}", what, dict(ctx, family="real-history", **more))
+
+        try:
+            w = rw.run()
+        except Exception as ex:
+            bad("raised", f"Reweighter.run raised {ex!r}")
+            break
+        cov["real_calls"] += 1
+        cur = sm.get_current()
+        beta = cur["beta"]
+        if cur["iter"] != iter_prev + 1:
+            bad("iter", f"iter {iter_prev} -> {cur['iter']}")
+        if empty:
+            cov["real_first_calls"] += 1
+            if not (beta == 0.0 and cur["logz"] == 0.0 and w.shape == (npart,) and np.all(w == 1.0 / npart)):
+                bad("first", f"first call on an empty history: beta={beta!r} logz={cur['logz']!r}")
+        else:
+            if not (beta >= beta_prev):
+                bad("decrease", f"beta decreased {beta_prev!r} -> {beta!r}")
+            if not (beta <= 1.0):
+                bad("above-one", f"beta = {beta!r} > 1")
+            # recomputation with the code's own functions on the (unchanged) pre-step history
+            logw, logz_r = sm.compute_logw_and_logz(beta)
+            wts = np.exp(logw - np.max(logw))
+            ess_r = ess_fn(wts)
+            wn = wts / np.sum(wts)
+            if not same_float(float(cur["logz"]), float(logz_r)):
+                bad("logz-mismatch", f"recorded logz {cur['logz']!r} != evidence at the recorded beta {logz_r!r}")
+            if not same_float(float(cur["ess"]), float(ess_r)):
+                bad("ess-mismatch", f"recorded ess {cur['ess']!r} != ESS at the recorded beta {ess_r!r}")
+            if w.shape != wn.shape or not np.array_equal(w, wn):
+                bad("weights-mismatch", "returned weights are not the normalised weights at the recorded beta",
+                    max_abs_diff=float(np.max(np.abs(w - wn))) if w.shape == wn.shape else None)
+            nev = len(seen["evals"])
+            cov["evaluations"] += nev
+            if nev > 2 * (kmax + 2) + 3:
+                bad("evaluations", f"{nev} metric evaluations in one call, bound {2 * (kmax + 2) + 3}")
+            if any(not (beta_prev <= b <= 1.0) for b in seen["evals"]):
+                bad("query-range", f"evaluated outside [beta_prev, 1]: {seen['evals']}")
+            upper = seen["upper"]
+            if upper is None or not (beta_prev <= upper <= 1.0):
+                bad("limit-range", f"ESS limit {upper!r} outside [beta_prev, 1]")
+            else:
+                if upper > beta_prev:
+                    lw, _ = sm.compute_logw_and_logz(upper)
+                    ess_u = ess_fn(np.exp(lw - np.max(lw)))
+                    cov["real_limits_beyond_prev"] += 1
+                    if not (ess_u >= target):
+                        bad("limit-ess", f"ESS at the returned limit {upper!r} is {ess_u!r} < target {target!r}")
+                if mode == "vv" and not (beta <= upper):
+                    bad("beyond-limit", f"beta {beta!r} beyond the ESS-limited temperature {upper!r}")
+            if beta > beta_prev:
+                cov["real_advances_" + mode] += 1
+                cov["distinct_nontrivial"] += 1
+                if mode == "ess":
+                    margin = (ess_r - target) / target
+                    cov["_margins"].append(margin)
+                    if ess_r >= target:
+                        if margin < ESS_TOL:
+                            cov["real_ess_advances_within_1pct_above_target"] += 1
+                    elif ess_r >= target * (1 - ESS_TOL):
+                        # "at least the target up to the routine's stated tolerance": reported, not an alarm
+                        cov["real_ess_advances_below_target_within_tolerance"] += 1
+                    else:
+                        bad("ess-floor", f"advanced {beta_prev!r} -> {beta!r} where ESS = {ess_r!r} < target {target!r}")
+                if ck is not None and len(ck.samples) < 6 and call % 3 == 0:
+                    ck.sample({"family": "real-history", "mode": mode, "style": style, "beta_prev": beta_prev,
+                               "beta": beta, "ess": float(ess_r), "target": target, "limit": upper,
+                               "pool": int(len(logw)), "evaluations": nev})
+            else:
+                cov["real_stays_" + mode] += 1
+        # commit a fresh batch "sampled" at the recorded temperature
+        nb = int(rng.randint(max(d + 2, npart // 2), 2 * npart + 1)) if unequal else npart
+        if style == "tempered":
+            b_s = beta
+        elif style == "wrong-temperature":
+            b_s = float(rng.uniform(0, 1)) ** 2
+        else:
+            b_s = None
+        if b_s is not None:
+            prec = 1.0 + b_s * scale
+            x = (b_s * scale * mu / prec) + rng.standard_normal((nb, d)) / math.sqrt(prec)
+            logl = -0.5 * scale * np.sum((x - mu) ** 2, axis=1)
+        else:
+            x = rng.standard_normal((nb, d))
+            logl = -rng.gamma(0.7, scale, nb) * (1 + 10 * (rng.uniform(size=nb) < 0.1))
+        sm.update_current({"u": ndtr(x), "x": x, "logl": logl, "calls": int(cur["calls"] or 0) + nb})
+        sm.commit_current_to_history()
+        if beta == 1.0:
+            at_one += 1
+            if at_one >= 3:
                 break
-            cov["real_calls"] += 1
-            cur = sm.get_current()
-            beta = cur["beta"]
-            if cur["iter"] != iter_prev + 1:
-                bad("iter", f"iter {iter_prev} -> {cur['iter']}")
-            if empty:
-                cov["real_first_calls"] += 1
-                if not (beta == 0.0 and cur["logz"] == 0.0 and w.shape == (npart,) and np.all(w == 1.0 / npart)):
-                    bad("first", f"first call on an empty history: beta={beta!r} logz={cur['logz']!r}")
-            else:
-                if not (beta >= beta_prev):
-                    bad("decrease", f"beta decreased {beta_prev!r} -> {beta!r}")
-                if not (beta <= 1.0):
-                    bad("above-one", f"beta = {beta!r} > 1")
-                # recomputation with the code's own functions on the (unchanged) pre-step history
-                logw, logz_r = sm.compute_logw_and_logz(beta)
-                wts = np.exp(logw - np.max(logw))
-                ess_r = ess_fn(wts)
-                wn = wts / np.sum(wts)
-                if not same_float(float(cur["logz"]), float(logz_r)):
-                    bad("logz-mismatch", f"recorded logz {cur['logz']!r} != evidence at the recorded beta {logz_r!r}")
-                if not same_float(float(cur["ess"]), float(ess_r)):
-                    bad("ess-mismatch", f"recorded ess {cur['ess']!r} != ESS at the recorded beta {ess_r!r}")
-                if w.shape != wn.shape or not np.array_equal(w, wn):
-                    bad("weights-mismatch", "returned weights are not the normalised weights at the recorded beta",
-                        max_abs_diff=float(np.max(np.abs(w - wn))) if w.shape == wn.shape else None)
-                nev = len(seen["evals"])
-                cov["evaluations"] += nev
-                if nev > 2 * (kmax + 2) + 3:
-                    bad("evaluations", f"{nev} metric evaluations in one call, bound {2 * (kmax + 2) + 3}")
-                if any(not (beta_prev <= b <= 1.0) for b in seen["evals"]):
-                    bad("query-range", f"evaluated outside [beta_prev, 1]: {seen['evals']}")
-                upper = seen["upper"]
-                if upper is None or not (beta_prev <= upper <= 1.0):
-                    bad("limit-range", f"ESS limit {upper!r} outside [beta_prev, 1]")
-                else:
-                    if upper > beta_prev:
-                        lw, _ = sm.compute_logw_and_logz(upper)
-                        ess_u = ess_fn(np.exp(lw - np.max(lw)))
-                        cov["real_limits_beyond_prev"] += 1
-                        if not (ess_u >= target):
-                            bad("limit-ess", f"ESS at the returned limit {upper!r} is {ess_u!r} < target {target!r}")
-                    if mode == "vv" and not (beta <= upper):
-                        bad("beyond-limit", f"beta {beta!r} beyond the ESS-limited temperature {upper!r}")
-                if beta > beta_prev:
-                    cov["real_advances_" + mode] += 1
-                    cov["distinct_nontrivial"] += 1
-                    if mode == "ess":
-                        margin = (ess_r - target) / target
-                        cov["_margins"].append(margin)
-                        if ess_r >= target:
-                            if margin < ESS_TOL:
-                                cov["real_ess_advances_within_1pct_above_target"] += 1
-                        elif ess_r >= target * (1 - ESS_TOL):
-                            # "at least the target up to the routine's stated tolerance": reported, not an alarm
-                            cov["real_ess_advances_below_target_within_tolerance"] += 1
-                        else:
-                            bad("ess-floor", f"advanced {beta_prev!r} -> {beta!r} where ESS = {ess_r!r} < target {target!r}")
-                    if len(ck.samples) < 6 and call % 3 == 0:
-                        ck.sample({"family": "real-history", "mode": mode, "style": style, "beta_prev": beta_prev,
-                                   "beta": beta, "ess": float(ess_r), "target": target, "limit": upper,
-                                   "pool": int(len(logw)), "evaluations": nev})
-                else:
-                    cov["real_stays_" + mode] += 1
-            # commit a fresh batch "sampled" at the recorded temperature
-            nb = int(rng.randint(max(d + 2, npart // 2), 2 * npart + 1)) if unequal else npart
-            if style == "tempered":
-                b_s = beta
-            elif style == "wrong-temperature":
-                b_s = float(rng.uniform(0, 1)) ** 2
-            else:
-                b_s = None
-            if b_s is not None:
-                prec = 1.0 + b_s * scale
-                x = (b_s * scale * mu / prec) + rng.standard_normal((nb, d)) / math.sqrt(prec)
-                logl = -0.5 * scale * np.sum((x - mu) ** 2, axis=1)
-            else:
-                x = rng.standard_normal((nb, d))
-                logl = -rng.gamma(0.7, scale, nb) * (1 + 10 * (rng.uniform(size=nb) < 0.1))
-            sm.update_current({"u": ndtr(x), "x": x, "logl": logl, "calls": int(cur["calls"] or 0) + nb})
-            sm.commit_current_to_history()
-            if beta == 1.0:
-                at_one += 1
-                if at_one >= 3:
-                    break
-        cov["real_runs"] += 1
-        cov["real_runs_reaching_one"] += int(sm.get_current("beta") == 1.0)
+    cov["real_runs"] += 1
+    cov["real_runs_reaching_one"] += int(sm.get_current("beta") == 1.0)
 
 
 # --------------------------------------------------------------------------------------------------
@@ -559,13 +575,15 @@ def component_part(ck):
     for k in ("real_advances_ess", "real_advances_vv", "real_first_calls", "real_limits_beyond_prev"):
         if ck.violations == 0 and cov.get(k, 0) == 0:
             raise RuntimeError(f"vacuous: {k} = 0")
-    for k in ("real_ess_advances_below_target_within_tolerance", "real_ess_advances_within_1pct_above_target"):
+    for k in ("real_ess_advances_below_target_within_tolerance", "real_ess_advances_within_1pct_above_target",
+              "real_metric_bisections_ess", "real_metric_bisections_vv"):
         cov.setdefault(k, 0)
     return cov
 
 
 def replay(ck, path):
-    """./check C05 --replay <file>: re-run one recorded stub-family case and print both sides."""
+    """./check C05 --replay <file>: re-run one recorded case (stub family: the behaviour; real-history family:
+    the whole synthetic run regenerated from its seed) and print the verdict."""
     import json
 
     core.import_repo()
@@ -576,9 +594,20 @@ def replay(ck, path):
     with open(path) as f:
         rec = json.load(f)["replay"]
     if rec.get("family") != "stub":
-        print("replay is implemented for stub-family cases; real-history cases are regenerated from "
-              f"(seed={rec.get('seed')}, run={rec.get('run')}, call={rec.get('call')}) by re-running the check")
-        sys.exit(2)
+        import collections
+        from tempest.tools import effective_sample_size
+
+        hits = []
+
+        def report(key, what, ctx):
+            hits.append(key)
+            print(f"  key={key} call={ctx.get('call')} beta_prev={ctx.get('beta_prev')!r}: {what}")
+
+        with np.errstate(all="ignore"):
+            real_history_run(np, Reweighter, StateManager, effective_sample_size, rec["seed"], rec["run"],
+                             rec.get("tier", "quick"), collections.defaultdict(int, _margins=[]), report)
+        print("verdict  :", sorted(set(hits)) or "conforms")
+        sys.exit(1 if hits else 0)
     b = StubBinding(np, Reweighter, StateManager, ck.seed)
     obs, exp = b.observe(rec["state"], rec["F"]), b.expected(rec["state"], rec["F"])
     print("observed :", obs)
